@@ -49,8 +49,8 @@ inductive PC where
   | crit
   /-- after `stop` -/
   | fin
-  /-- an `assert` failed -/
-  | panicked
+  /-- an `assert` failed; `h` = the thread owned the mutex at that moment (it stays locked) -/
+  | panicked (h : Bool)
   /-- `lock_op`: before `compare_exchange(UNLOCKED, LOCKED)` -/
   | lk0
   /-- `lock_slow`: before `compare_exchange(LOCKED, LOCKED_CONTENDED)` -/
@@ -217,6 +217,10 @@ def wakeJ (u : Nat) : PC → PC
   | .jsl r v => if v = u then .jwk r v else .jsl r v
   | p => p
 
+def isPanicked : PC → Bool
+  | .panicked _ => true
+  | _ => false
+
 def isSleeping : PC → Bool
   | .sleeping _ => true
   | _ => false
@@ -273,7 +277,7 @@ def stepAt (s : State) (t : Nat) (pc : PC) (a : Act) : Except String State :=
       if rd ≠ s.w then .error "lk0: value seen differs from the lock word"
       else if rd = 0 then (if wr = some 1 then .ok { s with w := 1, pcs := s.pcs.set t .crit } else .error "lk0: CAS 0→1 must succeed")
       else if wr ≠ none then .error "lk0: CAS must fail"
-      else if rd = 1 ∨ rd = 2 then .ok (s.setPc t .slow0) else .ok (s.setPc t .panicked)
+      else if rd = 1 ∨ rd = 2 then .ok (s.setPc t .slow0) else .ok (s.setPc t (.panicked false))
     | _ => .error "lk0: expected CAS on the lock word"
   | .slow0 =>
     match a with
@@ -318,7 +322,7 @@ def stepAt (s : State) (t : Nat) (pc : PC) (a : Act) : Except String State :=
       if u ≠ t then (if (queueOf s k).getLast? = some u then .ok s else .error "eq2: touches a thread that is not the tail of the queue")
       else if s.b[t]? = some false then
         .ok { setQueue s k (queueOf s k ++ [t]) with b := s.b.set t true, pcs := s.pcs.set t (.eq3 k true) }
-      else .ok (s.setPc t .panicked)   -- prepare_for_waitlist: assert!(!blocking && next.is_null())
+      else .ok (s.setPc t (.panicked (k == .cond)))   -- prepare_for_waitlist: assert!(!blocking && next.is_null())
     | _ => .error "eq2: expected the blocking-data bookkeeping"
   | .eq3 k queued =>
     match a with
@@ -354,7 +358,7 @@ def stepAt (s : State) (t : Nat) (pc : PC) (a : Act) : Except String State :=
       if rd ≠ s.w then .error "ul: value seen differs from the lock word"
       else if rd = 1 then .ok { s with w := 0, pcs := s.pcs.set t (match c with | .plain => .idle | .cwait => .blkA .cond) }
       else if rd = 2 then .ok { s with w := 0, pcs := s.pcs.set t (.wk0 .mtx false (match c with | .plain => .idle | .cwait => .block)) }
-      else .ok { s with w := 0, pcs := s.pcs.set t .panicked }   -- unlock_slow: assert(previous == LOCKED_CONTENDED)
+      else .ok { s with w := 0, pcs := s.pcs.set t (.panicked false) }   -- unlock_slow: assert(previous == LOCKED_CONTENDED)
     | _ => .error "ul: expected exchange on the lock word"
   -- ───────── wakeup / wakeup_all
   | .wk0 k all r =>
@@ -372,7 +376,7 @@ def stepAt (s : State) (t : Nat) (pc : PC) (a : Act) : Except String State :=
          else if !bFree s u then .error "wk1: the thread holds its own blocking data"
          else if s.b[u]? = some true then
            .ok { setQueue s k rest with b := s.b.set u false, pcs := s.pcs.set t (.wk2 k all r u) }
-         else .ok (s.setPc t .panicked))  -- remove_from_waitlist: assert!(blocking)
+         else .ok (s.setPc t (.panicked (r == .crit))))  -- remove_from_waitlist: assert!(blocking)
     | .unlockWL =>
       if queueOf s k = [] then .ok { s with wl := none, pcs := s.pcs.set t (retPc r) }
       else .error "wk1: leaves although the queue is not empty (lost wake-up)"
@@ -460,7 +464,7 @@ def stepAt (s : State) (t : Nat) (pc : PC) (a : Act) : Except String State :=
     | .unlockWL => .ok { s with wl := none, pcs := s.pcs.set t (retPc r) }
     | _ => .error "gc1: expected unlock of the wait table"
   | .fin => .error "fin: the thread has stopped"
-  | .panicked => .error "panicked"
+  | .panicked _ => .error "panicked"
 
 /-- Trace acceptor: one event of the real execution against the model. -/
 def accept (s : State) (e : Event) : Except String State :=
